@@ -170,7 +170,8 @@ class Jalr(MipsInstruction):
     tokens = [MipsRToken]
     rs = Operand("rs", MipsRegister, read=True)
     syntax = Syntax(["jalr", " ", rs])
-    patterns = {"opcode": 0, "rs": rs, "rt": 0, "rd": 0, "shamt": 0, "funct": 9}
+    # The return address goes into rd, which is ra unless given otherwise:
+    patterns = {"opcode": 0, "rs": rs, "rt": 0, "rd": 31, "shamt": 0, "funct": 9}
 
 
 class J(MipsInstruction):
@@ -299,11 +300,17 @@ def pattern_shl(context, tree, c0, c1):
     return d
 
 
-@isa.pattern("reg", "SHRI32(reg, reg)", size=4, cycles=1, energy=1)
 @isa.pattern("reg", "SHRU32(reg, reg)", size=4, cycles=1, energy=1)
 def pattern_shr(context, tree, c0, c1):
     d = context.new_reg(MipsRegister)
     context.emit(Srlv(d, c1, c0))
+    return d
+
+
+@isa.pattern("reg", "SHRI32(reg, reg)", size=4, cycles=1, energy=1)
+def pattern_sar(context, tree, c0, c1):
+    d = context.new_reg(MipsRegister)
+    context.emit(Srav(d, c1, c0))
     return d
 
 
